@@ -462,6 +462,9 @@ fn misc_device_cases(ctx: &Ctx) {
         ("second-same", ".device ATmega8\n.device ATmega8\nnop\n".to_string(), false),
         ("second-different", ".device ATmega8\nnop\n.device ATmega16\n".to_string(), false),
         ("second-after-code", ".device ATtiny13\nnop\nnop\n.device ATtiny13\n".to_string(), false),
+        ("two-operands", ".device ATmega8, ATmega16\nnop\n".to_string(), false),
+        ("two-operands-same", ".device ATtiny13, ATtiny13\nnop\n".to_string(), false),
+        ("two-operands-second-unknown", ".device ATmega8, nothing\nnop\n".to_string(), false),
         ("single", ".device ATmega8\nnop\n".to_string(), true),
     ];
     for (name, src, ok) in cases {
